@@ -16,6 +16,9 @@ FewLayers == {[k |-> "frag", tag |-> "huge"], [k |-> "mbapp", tag |-> "huge"],
               [k |-> "var", c |-> M!IntBits(128)], [k |-> "str", c |-> M!Name19], [k |-> "p2pke"]}
 MtuSet == {64, 100, 576, 1280, 65536}
 MtuSet3 == {64, 576, 65536}
+\* small enough that mbapp's 16-bit part count limits MTU() to 65535 / 131070 bytes
+MtuSmall == {25, 26}
+MtuSetQ == MtuSet \cup MtuSmall
 BaseV == {"vswarm"}
 BaseVN == {"vswarm", "netsim"}
 =============================================================================
